@@ -13,10 +13,11 @@ _WORLD_MODULES = {
     "fields": "worlds.fields",
     "gpio": "worlds.gpio",
     "builder": "worlds.builder",
+    "elab": "worlds.elab",
 }
 PROPERTY_WORLD = {
     "C04": "mux", "C05": "mux",
-    "C07": "wbdec", "C10": "wb2csr", "C15": "sram", "C13": "evmon", "C14": "csrevmon", "C11": "fields", "C12": "fields", "C16": "gpio", "C17": "builder",
+    "C07": "wbdec", "C10": "wb2csr", "C15": "sram", "C13": "evmon", "C14": "csrevmon", "C11": "fields", "C12": "fields", "C16": "gpio", "C17": "builder", "C19": "elab",
     "C08": "arbiter", "C09": "arbiter",
     "C02": "memmap", "C03": "memmap", "C18": "memmap",
 }
